@@ -872,16 +872,14 @@ func (r *Reader) processParagraph(p paragraphXML) parsedParagraph {
 	// Extract text
 	var textParts []string
 
-	// Direct text content
+	// Complete text in document order (character data and inline elements)
 	if p.Text != "" {
 		textParts = append(textParts, p.Text)
 	}
 
-	// Text from spans
+	// Formatting runs from spans
 	for _, span := range p.Spans {
 		if span.Text != "" {
-			textParts = append(textParts, span.Text)
-
 			// Create run for formatting
 			pr := parsedRun{Text: span.Text}
 			if r.styleResolver != nil {
@@ -931,16 +929,9 @@ func (r *Reader) processHeading(h headingXML) parsedParagraph {
 	// Extract text
 	var textParts []string
 
-	// Direct text content
+	// Complete text in document order (character data and inline elements)
 	if h.Text != "" {
 		textParts = append(textParts, h.Text)
-	}
-
-	// Text from spans
-	for _, span := range h.Spans {
-		if span.Text != "" {
-			textParts = append(textParts, span.Text)
-		}
 	}
 
 	parsed.Text = strings.Join(textParts, "")
